@@ -12,8 +12,10 @@ import itertools
 from ..lang import (INT, IntLit, Var, Bin, Assign, Affix, Decl, ExprStmt, Block, If, For, While, Do, Break, Continue,
                     Return, Func, Module)
 
-CONSTRUCTS = ("block", "if", "if1", "ifelse_then", "ifelse_else", "elseif", "for", "for1", "while", "while1", "do")
-LOOPS = {"for", "for1", "while", "while1", "do"}
+# for_ns: a `for` whose header has no step (the body advances the variable first); for_nc: no test (the body leaves)
+CONSTRUCTS = ("block", "if", "if1", "ifelse_then", "ifelse_else", "elseif", "for", "for1", "while", "while1", "do", "for_ns", "for_nc")
+LOOPS = {"for", "for1", "while", "while1", "do", "for_ns", "for_nc"}
+BRACED_LOOPS = ("for", "while", "do", "for_ns", "for_nc")
 UNBRACED = {"if1", "for1", "while1"}
 
 
@@ -60,7 +62,7 @@ def build(chain, flows):
     def nearest_counter(j):
         """counter of the innermost braced loop enclosing level j (None when there is none)"""
         for k in range(j - 1, -1, -1):
-            if chain[k] in ("for", "while", "do"):
+            if chain[k] in BRACED_LOOPS:
                 return "c%d" % k
         return None
 
@@ -120,6 +122,18 @@ def build(chain, flows):
             # body leaves it visible
             return [For(Decl(INT, "i%d" % k, I(0)), B("<", V("i%d" % k), I(3)), Affix("++", True, V("i%d" % k)),
                         Block([ExprStmt(Assign("=", V(ck), B("+", V(ck), I(1))))] + body +
+                              [ExprStmt(Assign("=", V(ck), B("+", V(ck), I(10))))]))]
+        if c == "for_ns":
+            counters.append(ck)
+            iv = V("i%d" % k)
+            return [For(Decl(INT, "i%d" % k, I(0)), B("<", iv, I(3)), None,
+                        Block([ExprStmt(Assign("=", iv, B("+", iv, I(1)))), ExprStmt(Assign("=", V(ck), B("+", V(ck), I(1))))] + body +
+                              [ExprStmt(Assign("=", V(ck), B("+", V(ck), I(10))))]))]
+        if c == "for_nc":
+            counters.append(ck)
+            iv = V("i%d" % k)
+            return [For(Decl(INT, "i%d" % k, I(0)), None, Affix("++", True, iv),
+                        Block([If(B(">=", iv, I(3)), Block([Break()])), ExprStmt(Assign("=", V(ck), B("+", V(ck), I(1))))] + body +
                               [ExprStmt(Assign("=", V(ck), B("+", V(ck), I(10))))]))]
         if c == "for1":
             return [For(Decl(INT, "i%d" % k, I(0)), B("<", V("i%d" % k), I(3)), Affix("++", True, V("i%d" % k)), wrap(body, False))]
@@ -196,7 +210,7 @@ def random_case(rng, min_len, max_len):
 
 def paired_cases():
     """outer flow statement before an inner loop that has its own flow statement: all loop-kind pairs x kinds"""
-    braced = ("for", "while", "do")
+    braced = BRACED_LOOPS
     for outer in braced:
         for inner in braced:
             for mid in ((), ("block",), ("if",), ("ifelse_else",)):
